@@ -170,6 +170,66 @@ var tests = []litmus{
 		vsched.Select(false, vsched.Recv(t.C))
 		rec(out, v, fmt.Sprintf("stopped=%v fired-after-reset at %v", was, e.Clock()))
 	}},
+	{"ticker-ticks-every-period-until-stopped", []string{"ticks at [1s 2s 3s] none after Stop"}, false, func(e *vsched.Exec, out *[]string, v *vsched.Var) {
+		t := vsched.NewTicker(time.Second)
+		var at []time.Duration
+		for i := 0; i < 3; i++ {
+			vsched.Select(false, vsched.Recv(t.C))
+			at = append(at, e.Clock())
+		}
+		t.Stop()
+		vsched.Sleep(5 * time.Second)
+		if vsched.Select(true, vsched.Recv(t.C)) == 0 {
+			rec(out, v, "tick after Stop")
+			return
+		}
+		rec(out, v, fmt.Sprintf("ticks at %v none after Stop", at))
+	}},
+	{"ticker-drops-ticks-for-a-slow-receiver", []string{"received at [2.5s 3s 5.5s 6s]"}, false, func(e *vsched.Exec, out *[]string, v *vsched.Var) {
+		// ticks at 1,2,3,...; the channel holds one: the tick of 1 s waits, the tick of 2 s is dropped
+		t := vsched.NewTicker(time.Second)
+		var at []time.Duration
+		for i := 0; i < 2; i++ {
+			vsched.Sleep(2500 * time.Millisecond)
+			vsched.Select(false, vsched.Recv(t.C)) // the waiting tick, at once
+			at = append(at, e.Clock())
+			vsched.Select(false, vsched.Recv(t.C)) // the next tick
+			at = append(at, e.Clock())
+		}
+		t.Stop()
+		rec(out, v, fmt.Sprintf("received at %v", at))
+	}},
+	{"ticker-reset-changes-the-period", []string{"ticks at [1s 3s 5s]"}, false, func(e *vsched.Exec, out *[]string, v *vsched.Var) {
+		t := vsched.NewTicker(time.Second)
+		var at []time.Duration
+		vsched.Select(false, vsched.Recv(t.C))
+		at = append(at, e.Clock())
+		t.Reset(2 * time.Second)
+		for i := 0; i < 2; i++ {
+			vsched.Select(false, vsched.Recv(t.C))
+			at = append(at, e.Clock())
+		}
+		t.Stop()
+		rec(out, v, fmt.Sprintf("ticks at %v", at))
+	}},
+	{"ticker-vs-done-channel", []string{"done at 2.5s after 2 ticks"}, false, func(e *vsched.Exec, out *[]string, v *vsched.Var) {
+		done := make(chan struct{})
+		vsched.GoQuiet("loop", func() {
+			t := vsched.NewTicker(time.Second)
+			n := 0
+			for {
+				switch vsched.Select(false, vsched.Recv(done), vsched.Recv(t.C)) {
+				case 0:
+					t.Stop()
+					rec(out, v, fmt.Sprintf("done at %v after %d ticks", e.Clock(), n))
+					return
+				case 1:
+					n++
+				}
+			}
+		})
+		vsched.GoQuiet("closer", func() { vsched.Sleep(2500 * time.Millisecond); vsched.Close(done) })
+	}},
 	{"select-two-ready-cases", []string{"0", "1"}, false, func(e *vsched.Exec, out *[]string, v *vsched.Var) {
 		a, b := make(chan struct{}, 1), make(chan struct{}, 1)
 		vsched.SendStmt(a)
